@@ -845,7 +845,12 @@ class QMI_UdpTransport(QMI_SocketTransport):
         # Create socket
         self._socket = socket.socket(socket.AF_INET, socket.SOCK_DGRAM)
         # To set the local address to point to our client, we need to bind it.
-        self._socket.bind(("", self._address[1]))
+        try:
+            self._socket.bind(("", self._address[1]))
+        except Exception:
+            # Do not keep the socket when the local port cannot be claimed.
+            self._socket.close()
+            raise
 
     def close(self) -> None:
         _logger.debug("Closing UDP transport %s", self)
@@ -895,14 +900,18 @@ class QMI_TcpTransport(QMI_SocketTransport):
         super()._open_transport()
         # Create socket and connect.
         self._socket = socket.socket(socket.AF_INET, socket.SOCK_STREAM)
-        self._socket.settimeout(self._connect_timeout)
-        # Set TCP_NODELAY socket option.
-        self._socket.setsockopt(socket.IPPROTO_TCP, socket.TCP_NODELAY, 1)
         try:
+            self._socket.settimeout(self._connect_timeout)
+            # Set TCP_NODELAY socket option.
+            self._socket.setsockopt(socket.IPPROTO_TCP, socket.TCP_NODELAY, 1)
             self._socket.connect(self._address)
         except socket.timeout as e:
             self._socket.close()
             raise QMI_TimeoutException("Timeout while connecting to {}".format(self._address)) from e
+        except Exception:
+            # Do not keep the socket of a connection that was never established.
+            self._socket.close()
+            raise
 
     def close(self) -> None:
         _logger.debug("Closing TCP transport %s", self)
